@@ -46,6 +46,15 @@ impl Prop for P {
                     for (sem, fe) in [("extend", "raw_iter"), ("extend", "raw_stream"), ("extend", "map_iter"), ("extend", "map_stream"), ("fromiter", "map"), ("fromiter", "raw_map")] {
                         cases.push(build_case(sem, fe, 0, drows(), dcols(), &mops));
                     }
+                    // the same map histories with the value 0 on every second item and on all items: a value is
+                    // no reason to treat an item differently (0 is also what sets store)
+                    for zmask in [1usize, 2] {
+                        let zops: Vec<Op> = seq.iter().enumerate().map(|(i, k)| Op::Insert(k.clone(), if zmask == 2 || i % 2 == 1 { 0 } else { (i + 1) as u64 })).collect();
+                        for (sem, fe) in [("calls", "raw"), ("calls", "map"), ("extend", "raw_iter"), ("extend", "raw_stream"), ("extend", "map_iter"), ("extend", "map_stream"), ("fromiter", "map")] {
+                            cases.push(build_case(sem, fe, 0, drows(), dcols(), &zops));
+                        }
+                        stats.bump("exhaustive_zero_valued_map_items");
+                    }
                     for (sem, fe) in [("extend", "set_iter"), ("extend", "set_stream"), ("fromiter", "set"), ("fromiter", "raw_set")] {
                         cases.push(build_case(sem, fe, 0, drows(), dcols(), &sops));
                     }
@@ -71,7 +80,7 @@ impl Prop for P {
                     let mk = |set: bool| -> String {
                         let mut parts: Vec<Vec<Op>> = vec![vec![]];
                         for (i, k) in seq.iter().enumerate() {
-                            parts.last_mut().unwrap().push(if set { Op::Add(k.clone()) } else { Op::Insert(k.clone(), (i + 1) as u64) });
+                            parts.last_mut().unwrap().push(if set { Op::Add(k.clone()) } else { Op::Insert(k.clone(), if (cut as usize + i) % 2 == 1 { 0 } else { (i + 1) as u64 }) });
                             if i + 1 < l && cut >> i & 1 == 1 {
                                 parts.push(vec![]);
                             }
@@ -130,7 +139,7 @@ impl Prop for P {
                         1 => if i > 0 { ks[i - 1].clone() } else { vec![] },
                         _ => vec![],
                     };
-                    ops.push(if is_set { Op::Add(bad) } else { Op::Insert(bad, rng.below(1000)) });
+                    ops.push(if is_set { Op::Add(bad) } else { Op::Insert(bad, if rng.chance(1, 3) { 0 } else { rng.below(1000) }) });
                 }
                 ops.push(if is_set { Op::Add(k.clone()) } else { Op::Insert(k.clone(), rng.below(1 << 40)) });
             }
